@@ -17,6 +17,8 @@ pub const ODD: [char; 12] = [
 
 /// arbitrary text: mix of syntax characters, letters, multi-byte and white space
 pub fn text(rng: &mut Rng, max_len: usize) -> String {
+    // one text in fifty is long (buffers, block sizes, caps): up to 40 x the usual length
+    let max_len = if rng.chance(1, 50) { max_len * 40 } else { max_len };
     let n = rng.below(max_len + 1);
     let mut s = String::new();
     for _ in 0..n {
